@@ -456,7 +456,7 @@ where
         };
         // ---- byte-level checks of every artefact ----
         let b_pp = layout_any(ctx, schemas, &id, &inst.pp as &dyn Any);
-        let _pp2 = artefact(&mut ctx.rep, &mut rng, &id, S::NAME, "universal-params", &inst.pp, &b_pp);
+        let pp2 = artefact(&mut ctx.rep, &mut rng, &id, S::NAME, "universal-params", &inst.pp, &b_pp);
         let b_ck = layout_any(ctx, schemas, &id, &inst.ck as &dyn Any);
         let ck2 = artefact(&mut ctx.rep, &mut rng, &id, S::NAME, "committer-key", &inst.ck, &b_ck);
         let b_vk = layout_any(ctx, schemas, &id, &inst.vk as &dyn Any);
@@ -501,6 +501,40 @@ where
                 if comms_un.len() == inst.comms.len() { Some(relabel(&inst.comms, comms_un.clone())) } else { None },
                 proof2.un.as_ref()),
         ];
+        // ---- re-loaded universal parameters: trimming them must give the same keys (bytes) and the same
+        //      decisions (fields that are NOT serialized, e.g. prepared group elements, are rebuilt on load) ----
+        for (vname, pp_d) in [("compressed+validated", pp2.cv.as_ref()), ("uncompressed+unvalidated", pp2.un.as_ref())] {
+            let did = format!("{}/reloaded-params/{}", id, vname);
+            if let Some(pp_d) = pp_d {
+                match guarded(|| PCof::<S>::trim(pp_d, inst.sizes.supported, inst.sizes.supported, inst.bounds.as_deref())) {
+                    Ok(Ok((ck_d, vk_d))) => {
+                        let same_bytes = ser_bytes(&ck_d) == ser_bytes(&inst.ck) && ser_bytes(&vk_d) == ser_bytes(&inst.vk);
+                        let d_honest = decide(&vk_d, &inst.comms, &ev, &proof);
+                        let d_bad = decide(&vk_d, &inst.comms, &ev_bad, &proof);
+                        // and the re-loaded committer key must produce proofs the original verifier key accepts
+                        let mut psp2 = generic::fresh_sponge();
+                        let inst_d = Instance::<S> { sizes: inst.sizes.clone(), pp: inst.pp.clone(), ck: ck_d, vk: inst.vk.clone(),
+                            polys: inst.polys.clone(), kinds: inst.kinds.clone(), comms: inst.comms.clone(), states: inst.states.clone(), bounds: inst.bounds.clone() };
+                        let d_reopen = match generic::batch_open::<S>(&inst_d, &qs, &mut psp2, &mut rng.clone()) {
+                            Ok(p2) => Some(decide(&inst.vk, &inst.comms, &ev, &p2)),
+                            Err(_) => None,
+                        };
+                        if !same_bytes || d_honest != o_honest || d_bad != o_bad || (d_reopen.is_some() && d_reopen != Some(o_honest.clone())) {
+                            ctx.rep.expect_fail(&did, &format!("{}/reloaded-params-differ", S::NAME),
+                                &format!("keys trimmed from re-loaded parameters ({}): same bytes {}, honest {:?} (original {:?}), tampered {:?} (original {:?}), proofs made with the re-loaded committer key {:?}",
+                                    vname, same_bytes, d_honest, o_honest, d_bad, o_bad, d_reopen),
+                                generic::fail_replay(&inst, &did, ctx.seed, &format!("universal parameters serialized and re-loaded ({}) before trim", vname)));
+                        }
+                    }
+                    other => {
+                        ctx.rep.expect_fail(&did, &format!("{}/reloaded-params-trim-refused", S::NAME),
+                            &format!("trim of re-loaded parameters refused: {:?}", other.map(|r| r.map(|_| ()).map_err(|e| err_kind(&e)))),
+                            generic::fail_replay(&inst, &did, ctx.seed, "re-loaded parameters"));
+                    }
+                }
+                ctx.rep.count(&format!("{}/reloaded-params", S::NAME));
+            }
+        }
         for (vname, vk_d, comms_d, proof_d) in variants {
             let did = format!("{}/decision/{}", id, vname);
             if let (Some(vk_d), Some(comms_d), Some(proof_d)) = (vk_d, comms_d, proof_d) {
@@ -856,4 +890,10 @@ pub fn run(ctx: &mut Ctx) {
         "hand-written impls tied to the generated schema: {}",
         schemas.iter().map(|s| s.name.clone()).collect::<Vec<_>>().join(", ")
     ));
+}
+
+fn ser_bytes<T: CanonicalSerialize>(x: &T) -> Vec<u8> {
+    let mut v = vec![];
+    let _ = x.serialize_compressed(&mut v);
+    v
 }
